@@ -11,6 +11,8 @@
 package main
 
 import (
+	"os"
+	"encoding/base64"
 	"context"
 	"fmt"
 	"reflect"
@@ -348,7 +350,7 @@ func plant(w *sim.World, created map[string]any, variant string) sim.Key {
 		delete(md, f)
 	}
 	legit := sim.ControllerOf(created)
-	if variant == "foreign" {
+	if variant == "foreign" || variant == "foreign-behind-cache" {
 		md["ownerReferences"] = []any{foreignRef()}
 	}
 	if variant == "foreign-lookalike" {
@@ -490,7 +492,7 @@ func runSite(c *kit.Ctx, s site, round int) {
 	c.Count("probe_created_objects", int64(len(created)))
 	sort.Slice(created, func(i, j int) bool { return sim.KeyOf(created[i]).String() < sim.KeyOf(created[j]).String() })
 	for _, obj := range created {
-		for _, variant := range []string{"foreign", "foreign-lookalike", "foreign-plus-owner", "foreign-bare", "uncontrolled"} {
+		for _, variant := range []string{"foreign", "foreign-lookalike", "foreign-plus-owner", "foreign-bare", "foreign-behind-cache", "uncontrolled"} {
 			k := sim.KeyOf(obj)
 			if (variant == "foreign-lookalike" || variant == "foreign-plus-owner") && sim.ControllerOf(obj) == nil {
 				continue
@@ -499,9 +501,21 @@ func runSite(c *kit.Ctx, s site, round int) {
 			if !c.Want(caseName) {
 				continue
 			}
+			if variant == "foreign-behind-cache" && s.actors["xr"] {
+				continue // the XR controller's cache/direct-read split has its own cases below
+			}
 			w := sim.NewWorld(xrk.Scheme(), uint64(c.Seed)*179+uint64(round))
 			s.setup(w, &siteRng{suffix: sfx})
+			frozen := w.RV()
 			pk := plant(w, obj, variant)
+			if variant == "foreign-behind-cache" && pk != (sim.Key{}) {
+				// the controller's informer cache has not seen the foreign object yet: its reads of
+				// that kind are served as of before the object appeared, its writes hit the store
+				gk := pk.GK()
+				for a := range s.actors {
+					w.SetActorLag(a, func(g schema.GroupKind) (int64, bool) { return -frozen, g == gk })
+				}
+			}
 			if pk == (sim.Key{}) {
 				continue
 			}
@@ -668,7 +682,7 @@ func composedSites(c *kit.Ctx, round int) {
 func main() {
 	c := kit.New("C02", "exploration")
 	c.Rule = "per write site (definition/offered CRDs, package-manager revision, active-revision establisher, RBAC provider roles / binding / XRD roles, XR composer named resource + XR connection secret in both modes) a probe run in a clean world records the objects the real controller creates; for each, a fresh world holds an object of that kind and name under a foreign controller reference / without controller, and the controller runs again; composed resources with generated names are re-parented to a foreign controller after the first composition (still desired / no longer desired, both composers). Names and groups vary with the round. Oracle: the foreign object is byte-identical afterwards (same resourceVersion), no effective write to it in the log, and - when the controller addressed it - an error, a Warning event or Synced=False surfaced. distinct = (site, object, variant, round); non-trivial = the controller issued at least one request addressed to the planted object."
-	c.Rule += " Variants per planted object: foreign controller / look-alike foreign controller / foreign controller with the legitimate owner kept as a plain owner / bare unrelated object without Crossplane labels or annotations / uncontrolled; after each foreign variant the legitimate owner is deleted and the site runs again (no conflict report required then). P&T resources are named through a patch to metadata.name; re-parenting cases also run with anonymous P&T templates."
+	c.Rule += " Claim secret race: two claims naming the same connection secret, served by ONE claim reconciler; the non-owning claim parked before each API call while the owning one is reconciled; the secret must equal that of the sequential run. Behind-cache variant: the controller's reads of the planted kind are frozen at the state before the foreign object appeared (Create hits AlreadyExists). Variants per planted object: foreign controller / look-alike foreign controller / foreign controller with the legitimate owner kept as a plain owner / bare unrelated object without Crossplane labels or annotations / uncontrolled; after each foreign variant the legitimate owner is deleted and the site runs again (no conflict report required then). P&T resources are named through a patch to metadata.name; re-parenting cases also run with anonymous P&T templates."
 	c.Assumptions = []string{"sim rejects a second controller reference (422) - the mechanism the SSA composer relies on", "objects created in the probe run are the objects the site writes; sites listed in DESIGN.md C02"}
 	c.Floor = 20
 	rounds := c.N(20, 300)
@@ -683,6 +697,95 @@ func main() {
 		if err := kit.Try(func() { composedSites(c, r) }); err != nil {
 			c.Violate("panic:composed", "composed", err.Error(), nil)
 		}
+		if r < 3 {
+			if err := kit.Try(func() { claimSecretRace(c, r) }); err != nil {
+				c.Violate("panic:claim-secret-race", "claim-secret-race", err.Error(), nil)
+			}
+		}
 	}
 	c.Finish()
+}
+
+// claimSecretRace: two claims in one namespace name the SAME connection secret. Claim B owns it.
+// The claim controller serves both claims with ONE reconciler (one connection propagator):
+// claim A's reconcile is parked before each of its API calls while claim B is reconciled, then
+// resumes. Whatever the interleaving, the secret B controls is left exactly as it was - the
+// outcome must equal that of the sequential run A;B (A refused, B a no-op).
+func claimSecretRace(c *kit.Ctx, round int) {
+	for _, ssa := range []bool{false, true} {
+		caseName := fmt.Sprintf("claim-secret-race/ssa=%v/r%d", ssa, round)
+		if !c.Want(caseName) {
+			continue
+		}
+		w := sim.NewWorld(xrk.Scheme(), uint64(c.Seed)*191+uint64(round))
+		d := xrd("", true)
+		w.MustSeed("user", d)
+		w.MustSeed("user", xrk.ResourcesComposition("comp", "ex.org/v1", "XThing", []map[string]any{
+			{"name": "a", "base": nopObj("NopA", "1"), "connectionDetails": []any{map[string]any{"name": "k", "type": "FromValue", "value": "v"}}, "readinessChecks": []any{map[string]any{"type": "None"}}}}))
+		if err := xrk.ReconcileComposition(w, "comp"); err != nil {
+			panic(err)
+		}
+		for _, n := range []string{"a", "b"} {
+			w.MustSeed("user", xrk.XRObject("ex.org/v1", "XThing", "xr-"+n, "comp", map[string]any{
+				"claimRef":                   map[string]any{"apiVersion": "ex.org/v1", "kind": "Thing", "namespace": "ns1", "name": n},
+				"writeConnectionSecretToRef": map[string]any{"name": "xr-" + n + "-conn", "namespace": "crossplane-system"}}))
+			w.MustSeed("user", xrk.ClaimObject("ex.org/v1", "Thing", "ns1", n, map[string]any{"resourceRef": map[string]any{"apiVersion": "ex.org/v1", "kind": "XThing", "name": "xr-" + n},
+				"compositionRef": map[string]any{"name": "comp"}, "writeConnectionSecretToRef": map[string]any{"name": "shared"}}))
+		}
+		// the XRs' own connection secrets hold different values
+		for _, n := range []string{"a", "b"} {
+			xr := w.GetObj(sim.Key{Group: "ex.org", Kind: "XThing", Name: "xr-" + n})
+			xu := &unstructured.Unstructured{Object: runtime.DeepCopyJSON(xr)}
+			_ = unstructured.SetNestedSlice(xu.Object, []any{
+				map[string]any{"type": "Ready", "status": "True", "reason": "Available", "lastTransitionTime": "2024-01-01T00:00:00Z"},
+				map[string]any{"type": "Synced", "status": "True", "reason": "ReconcileSuccess", "lastTransitionTime": "2024-01-01T00:00:00Z"}}, "status", "conditions")
+			if err := w.Client("xr").Status().Update(ctx, xu); err != nil {
+				panic(err)
+			}
+			w.MustSeed("xr", map[string]any{"apiVersion": "v1", "kind": "Secret", "type": "connection.crossplane.io/v1alpha1",
+				"metadata": map[string]any{"namespace": "crossplane-system", "name": "xr-" + n + "-conn",
+					"ownerReferences": []any{map[string]any{"apiVersion": "ex.org/v1", "kind": "XThing", "name": "xr-" + n, "uid": sim.Str(xr, "metadata", "uid"), "controller": true, "blockOwnerDeletion": true}}},
+				"data": map[string]any{"k": base64.StdEncoding.EncodeToString([]byte("value-of-" + n))}})
+		}
+		ce := xrk.NewClaimEnv(w, "xthings.ex.org", ssa)
+		rec := func(n string) func() {
+			return func() {
+				_, _ = ce.R.Reconcile(ctx, reconcile.Request{NamespacedName: types.NamespacedName{Namespace: "ns1", Name: n}})
+			}
+		}
+		for i := 0; i < 3; i++ {
+			rec("b")()
+		}
+		sk := sim.Key{Kind: "Secret", Namespace: "ns1", Name: "shared"}
+		before := w.GetObj(sk)
+		if os.Getenv("DBG") != "" {
+			for _, e := range w.Log(0) {
+				if e.Actor == "claim" {
+					fmt.Println(e.Short(), e.Err)
+				}
+			}
+			fmt.Println(kit.JSON(w.GetObj(sim.Key{Group: "ex.org", Kind: "Thing", Namespace: "ns1", Name: "b"})))
+		}
+		bUID := sim.Str(w.GetObj(sim.Key{Group: "ex.org", Kind: "Thing", Namespace: "ns1", Name: "b"}), "metadata", "uid")
+		owned := before != nil && sim.ControllerOf(before) != nil && sim.Str(sim.ControllerOf(before), "uid") == bUID
+		digest := func(w *sim.World) map[string]string {
+			o := w.GetObj(sk)
+			if o == nil {
+				return map[string]string{"secret": "<absent>"}
+			}
+			md, _ := o["metadata"].(map[string]any)
+			return map[string]string{"secret": kit.JSON(map[string]any{"data": o["data"], "owners": md["ownerReferences"], "rv": md["resourceVersion"]})}
+		}
+		points, parked, diffs := xrk.InterleaveVsSequential(w, ce.C, rec("a"), rec("b"), digest, nil)
+		c.Eval(caseName, owned && parked > 0)
+		c.Count("claim_secret_race_points", int64(points))
+		if owned {
+			c.Count("claim_secret_race_cases_with_owned_secret", 1)
+		}
+		for _, df := range diffs {
+			c.Violate("foreign-object-modified:claim-connection-secret-under-concurrent-reconciles", caseName,
+				fmt.Sprintf("claim a's reconcile parked before %s while claim b (the secret's controller) was reconciled by the same reconciler: the secret differs from the sequential run", df.Point), df)
+			break
+		}
+	}
 }
